@@ -18,6 +18,7 @@ VARIABLES l, bad, skip
 vars == <<files, l, bad, skip>>
 
 Has(r, f) == f \in DOMAIN r
+SF == INSTANCE SkfFile
 
 \* recorded projection t (from `ska nk --full-info` or the library) equals table T
 TableIs(t, T) ==
@@ -122,8 +123,22 @@ EvDistance(e) ==
            /\ DistanceOK(e, Content(e.ctx.file)),
     nf |-> Same]
 
+\* C09: both loaders tried on the saved file: exactly the loader of the width the file was
+\* written with (64 bits for k <= 31, else 128) accepts, and it returns the saved content
+EvLoad(e) ==
+   LET T == Content(e.ctx.file)
+       w == SF!WidthFor(T.k) IN
+   \* what every subcommand does: try 64 bits first, then 128 bits
+   [ok |-> /\ Present(e.ctx.file)
+           /\ (IF e.as64.ok THEN 64 ELSE IF e.as128.ok THEN 128 ELSE 0) = w
+           /\ (w = 64 => TableIs(e.as64.table, T))
+           /\ (w = 128 => TableIs(e.as128.table, T))
+           /\ e.k_bits = w,
+    nf |-> Same]
+
 Eval(e) ==
    CASE e.ev = "build" -> EvBuild(e)
+     [] e.ev = "load" -> EvLoad(e)
      [] e.ev = "import" -> EvImport(e)
      [] e.ev = "merge" -> EvMerge(e)
      [] e.ev = "delete" -> EvDelete(e)
